@@ -605,6 +605,36 @@ def rotated_cookie(ctx, env):
         env.write_cookie(COOKIE_CTX.decode(), COOKIE_ID, COOKIE)
 
 
+def keyring_with_other_lines(ctx, env):
+    """The client's keyring file as other programs and crashes leave it: the cookie the server asks for is there, among
+    older cookies and damaged lines (blank, truncated, with an extra field, not text).  A conforming server that accepts
+    only DBUS_COOKIE_SHA1 must still be reachable."""
+    import os
+    import time
+    now = int(time.time())
+    right = b'%s %d %s\n' % (COOKIE_ID, now, COOKIE)
+    layouts = {
+        'older-cookies-first': b'5 %d aa11\n6 %d bb22\n' % (now - 100, now - 50) + right,
+        'blank-line-first': b'\n' + right,
+        'truncated-line-first': b'12 %d\n' % now + right,
+        'extra-field-first': b'13 %d cc33 trailing\n' % now + right,
+        'binary-junk-first': b'\xff\xfe\x00 junk\n' + right,
+        'damaged-between': b'5 %d aa11\n\n  \n9\n' % now + right + b'99 %d dd44\n' % now,
+        'no-final-newline': b'5 %d aa11\n' % now + right[:-1],
+    }
+    path = os.path.join(env.keyring, COOKIE_CTX.decode())
+    try:
+        for name, content in layouts.items():
+            with open(path, 'wb') as f:
+                f.write(content)
+            for unix in (True, False):
+                case = {'kind': 'keyring-lines', 'layout': name, 'unix': unix}
+                ctx.count('keyring_layout_handshakes')
+                full_handshake(ctx, (b'DBUS_COOKIE_SHA1',), True, unix, 'data', case)
+    finally:
+        env.write_cookie(COOKIE_CTX.decode(), COOKIE_ID, COOKIE)
+
+
 def run(ctx):
     si, sn = ctx.shard or (0, 1)
     quick = ctx.tier == 'quick'
@@ -674,6 +704,7 @@ def run(ctx):
                                 full_handshake(ctx, accept, agree, unix, style, dict(case, split=1),
                                                split_rng=random.Random(str(case)))
             rotated_cookie(ctx, env)
+            keyring_with_other_lines(ctx, env)
             floods(ctx)
             custom_preferences(ctx)
             login_name_environments(ctx)
@@ -689,6 +720,9 @@ def replay(ctx, rp):
         env.write_cookie(COOKIE_CTX.decode(), COOKIE_ID, COOKIE)
         if case.get('kind') == 'custom-preference':
             custom_preferences(ctx)
+            return
+        if case.get('kind') == 'keyring-lines':
+            keyring_with_other_lines(ctx, env)
             return
         if case.get('kind') == 'login-name':
             login_name_environments(ctx)
